@@ -140,6 +140,12 @@ def sparsify (tol : Rat) (m : POMDP) : POMDP :=
 def sparseRewardMatrix (tol : Rat) (m : POMDP) : Mat :=
   fun s a => keep tol (rewardMatrix (sparsify tol m) s a)
 
+/-- reward matrix of a sparse model built by the converting constructor `MDP::SparseModel(const M&)` from a
+    model that answers `getExpectedReward(s,a,s1) = ρ(s,a)`:
+    `r = ρ; if (checkDifferentSmall(0.0, r)) rewards_(s,a) += r * p` for every `s1` (with the unfiltered `p`) -/
+def sparseRewardMatrixConv (tol : Rat) (m : POMDP) : Mat :=
+  fun s a => if stored tol (rewardMatrix m s a) then sumTo m.S (fun s1 => rewardMatrix m s a * m.T s a s1) else 0
+
 /-- a sum that skips the structurally missing (zero) entries, as Eigen's sparse kernels do -/
 def sumToNZ : Nat → (Nat → Rat) → Rat
   | 0, _ => 0
@@ -154,6 +160,9 @@ def unnormSp (m : POMDP) (b : Vec) (a o : Nat) : Vec :=
 
 def rewardSp (tol : Rat) (m : POMDP) (b : Vec) (a : Nat) : Rat :=
   sumToNZ m.S (fun s => sparseRewardMatrix tol m s a * b s)
+
+def rewardSpConv (tol : Rat) (m : POMDP) (b : Vec) (a : Nat) : Rat :=
+  sumToNZ m.S (fun s => sparseRewardMatrixConv tol m s a * b s)
 
 /-! ## the specification side: joint probability and P(o | b, a) -/
 
@@ -186,6 +195,30 @@ def filter (m : POMDP) : Vec → List (Nat × Nat) → Vec
 def seqProb (m : POMDP) : Vec → List (Nat × Nat) → Rat
   | _, [] => 1
   | b, (a, o) :: h => probO m b a o * seqProb m (updateG m b a o) h
+
+/-- `P(o_1..o_n | s_0 = s, a_1..a_n)` by the backward recursion straight from the tables -/
+def backward (m : POMDP) : List (Nat × Nat) → Vec
+  | [] => fun _ => 1
+  | (a, o) :: h => fun s => sumTo m.S (fun s1 => m.T s a s1 * m.Ob s1 a o * backward m h s1)
+
+/-- the joint distribution of (previous state, next state, observation) under belief `b` and action `a` -/
+def joint (m : POMDP) (b : Vec) (a : Nat) (s s1 o : Nat) : Rat := b s * m.T s a s1 * m.Ob s1 a o
+
+/-! ## decidable checkers evaluated by the driver on the library's exact outputs (L3) -/
+
+def allLt (n : Nat) (p : Nat → Bool) : Bool := (List.range n).all p
+
+/-- the reported unnormalised update is entry-wise the Bayes weight -/
+def checkUnnorm (m : POMDP) (b : Vec) (a o : Nat) (impl : Vec) : Bool :=
+  allLt m.S (fun s1 => decide (impl s1 = weight m b a o s1))
+
+/-- the reported prediction is entry-wise `Σ_s T(s,a,s1) b(s)` -/
+def checkPredict (m : POMDP) (b : Vec) (a : Nat) (impl : Vec) : Bool :=
+  allLt m.S (fun s1 => decide (impl s1 = predictG m b a s1))
+
+/-- the reported SOSA block has the entries `T(s,a,s1) O(s1,a,o)` -/
+def checkSosa (m : POMDP) (a o : Nat) (impl : Mat) : Bool :=
+  allLt m.S (fun s => allLt m.S (fun s1 => decide (impl s s1 = m.T s a s1 * m.Ob s1 a o)))
 
 /-! ## executable helpers for the driver -/
 
